@@ -76,19 +76,27 @@ int main() {
                 // deepchain N kind : N-node chain / fan destroyed on the current (small) stack
                 long n = std::stol(t[1]); int kind = std::stoi(t[2]);
                 libfive_tree x = libfive_tree_x();
+                libfive_tree y = libfive_tree_y();
+                libfive_tree v = libfive_tree_var();
                 libfive_tree cur = libfive_tree_x();
                 for (long i = 0; i < n; ++i) {
                     libfive_tree nxt;
                     if (kind == 0) nxt = libfive_tree_unary(Opcode::OP_SIN, cur);
                     else if (kind == 1) nxt = libfive_tree_binary(Opcode::OP_ADD, cur, x);
                     else if (kind == 2) nxt = libfive_tree_binary(Opcode::OP_MIN, x, cur);
-                    else nxt = libfive_tree_remap(cur, cur, x, x);
+                    else if (kind == 3) nxt = libfive_tree_remap(cur, cur, x, x);
+                    else if (kind == 4) nxt = libfive_tree_remap(cur, y, x, x);      // chain through t only
+                    else if (kind == 5) nxt = libfive_tree_remap(x, cur, x, y);      // chain through a coordinate only
+                    else if (kind == 6) nxt = Tree(cur).apply(Tree(v), Tree(x)).release();   // chain through apply's t
+                    else nxt = Tree(x).apply(Tree(v), Tree(cur)).release();          // chain through apply's value
                     libfive_tree_delete(cur);
                     cur = nxt;
                 }
                 long before = live() - base;
                 libfive_tree_delete(cur);
                 libfive_tree_delete(x);
+                libfive_tree_delete(y);
+                libfive_tree_delete(v);
                 out("DEEP built=" + std::to_string(before) + " live=" + std::to_string(live() - base));
             }
             else if (c == "const") H.push_back(libfive_tree_const(of_hex32(t[1])));
